@@ -52,6 +52,7 @@ type FuncSpec struct {
 	Ensures   []Clause
 	Modifies  []string
 	ModAll    bool // modifies * (everything reachable from arguments)
+	ModNothing bool // explicit `modifies nothing`
 	LoopInv   map[int][]Clause
 	LoopDec   map[int]*Clause
 	LoopMod   map[int][]string
@@ -255,7 +256,9 @@ func (cs *Contracts) loadContractFile(path, pkgPath string) error {
 				m = strings.TrimSpace(m)
 				if m == "*" {
 					cur.ModAll = true
-				} else if m != "" && m != "nothing" {
+				} else if m == "nothing" {
+					cur.ModNothing = true
+				} else if m != "" {
 					cur.Modifies = append(cur.Modifies, m)
 				}
 			}
